@@ -90,6 +90,10 @@ class MoScalarFunction(abc.ABC):
             float: The converted scalar value.
         """
         y = np.asarray(y)
+        if self._utopia_point is not None:
+            # Translate the objectives so that the utopia point (set by ``normalize``
+            # or given by the user) is the origin before measuring the distance to it.
+            y = y - self._utopia_point
         return self._scalarize(y)
 
     def normalize(self, yi):
